@@ -16,7 +16,7 @@ pub const SPEC: PropSpec = PropSpec {
     level: "exploration",
     rule: "Cases = (encoding E, generated document, BOM yes/no, declaration yes/no, source slice / buffered piece 1 / random pieces). E ranges over every encoding_rs static that reports is_ascii_compatible() (36 of 40, enumerated from the full list and filtered at run time). Characters are drawn by decoding random byte sequences in E and keeping those that E re-encodes without error, and are placed in text, both kinds of attribute values, comment, CDATA, PI content and an element name (for Shift_JIS / GBK / gb18030 / Big5 no character with trail byte ']' is placed in CDATA). The document is encoded in E, labelled with E in its declaration, and read: event kinds must equal the expected sequence, every payload decoded with reader.decoder() (decode / unescape / decode_and_unescape_value) must equal the original string, decoder().encoding() must be E after the declaration; without declaration UTF-8 is expected; a UTF-8 BOM never appears in an event; Reader::from_str keeps UTF-8 whatever the declaration says; a second declaration or a later BOM does not change the encoding again. Malformed injection: byte sequences that encoding_rs itself rejects for E (lead byte + space, lone lead byte at the end of a text, unmapped single bytes, UTF-8 overlong / surrogate / truncated forms) placed in text and attribute values must make decode, unescape and decode_and_unescape_value fail (never U+FFFD). Plus the repository's tests/documents/encoding corpus, whole and in pieces. Non-trivial = the document contains at least one non-ASCII character.",
     assumptions: &["encoding_rs is the oracle for which characters are representable and which byte sequences are malformed in E", "encoding labels are the canonical names returned by Encoding::name()"],
-    required: &["encodings_seen_all_ascii_compatible", "construct.text", "construct.attr_double", "construct.attr_single", "construct.comment", "construct.cdata", "construct.pi", "construct.name", "payload_starting_with_U+FEFF", "malformed_rejected", "path.implicit_bom_xml", "path.implicit_xml", "path.explicit", "path.xml_not_refined", "bom_inputs", "no_declaration_inputs", "corpus_files", "source.chunked"],
+    required: &["encodings_seen_all_ascii_compatible", "construct.text", "construct.attr_double", "construct.attr_single", "construct.comment", "construct.cdata", "construct.pi", "construct.name", "payload_starting_with_U+FEFF", "serde_documents_in_legacy_encodings", "malformed_rejected", "path.implicit_bom_xml", "path.implicit_xml", "path.explicit", "path.xml_not_refined", "bom_inputs", "no_declaration_inputs", "corpus_files", "source.chunked"],
     run,
     replay,
     thorough_layers: &[("miri", 1), ("asan", 20)],
@@ -457,6 +457,67 @@ fn check_state_machine(loc: &mut Local) -> Result<(), String> {
         }
     }
     *loc.paths.entry("path.explicit").or_insert(0) += 1;
+    // short inputs around the byte-order mark: the mark alone, the mark as a piece of its own, the mark
+    // plus one byte -- never an event that contains it
+    let bom = [0xEFu8, 0xBB, 0xBF];
+    for tail in [&b""[..], b"x", b"<r/>", b" ", b"<"] {
+        let mut input = bom.to_vec();
+        input.extend_from_slice(tail);
+        let mut runs: Vec<(String, Vec<Vec<u8>>)> = Vec::new();
+        let collect = |next: &mut dyn FnMut() -> Result<Event<'static>, quick_xml::Error>| -> Vec<Vec<u8>> {
+            let mut v = Vec::new();
+            for _ in 0..8 {
+                match next() {
+                    Ok(Event::Eof) | Err(_) => break,
+                    Ok(e) => v.push(e.to_vec()),
+                }
+            }
+            v
+        };
+        {
+            let mut r = Reader::from_reader(&input[..]);
+            runs.push(("slice".into(), collect(&mut || r.read_event().map(|e| e.into_owned()))));
+        }
+        for cuts in [vec![], vec![3], vec![3, 4]] {
+            let mut r = Reader::from_reader(ChunkedRead::new(&input, cuts.clone()));
+            let mut buf = Vec::new();
+            runs.push((format!("buffered, cuts {:?}", cuts), collect(&mut || {
+                buf.clear();
+                r.read_event_into(&mut buf).map(|e| e.into_owned())
+            })));
+        }
+        for (what, evs) in &runs {
+            if evs.iter().any(|e| e.windows(3).any(|w| w == bom)) {
+                return Err(format!("input EF BB BF + {:?} ({}): the byte-order mark appears in an event: {:?}", show(tail), what, evs.iter().map(|e| show(e)).collect::<Vec<_>>()));
+            }
+        }
+        *loc.paths.entry("path.short_bom_inputs").or_insert(0) += 1;
+    }
+    Ok(())
+}
+
+/// The deserializer on top of the reader: a document with Cyrillic element and attribute names in a
+/// legacy encoding, labelled so, deserializes to the same value as its UTF-8 original.
+fn check_serde_encoded(e: &'static Encoding, r: &mut Rng) -> Result<(), String> {
+    use crate::family::{gen_cyr_doc, CyrDoc};
+    let (plain, declared, v) = gen_cyr_doc(r, e.name());
+    let from_utf8: CyrDoc = quick_xml::de::from_str(&plain).map_err(|x| format!("the UTF-8 original {:?} does not deserialize: {}", plain, x))?;
+    if from_utf8 != v {
+        return Err(format!("harness error: the UTF-8 original {:?} deserializes to {:?}, expected {:?}", plain, from_utf8, v));
+    }
+    let (bytes, _, bad) = e.encode(&declared);
+    if bad {
+        return Err("harness error: the document is not representable in the target encoding".into());
+    }
+    for piece in [0usize, 1, 5] {
+        let cuts = if piece == 0 { vec![] } else { cuts_for_piece(bytes.len(), piece, 0) };
+        let got: Result<CyrDoc, _> = quick_xml::de::from_reader(ChunkedRead::new(&bytes, cuts));
+        match got {
+            Ok(g) if g == v => {}
+            Ok(g) => return Err(format!("from_reader of the document in {} (pieces of {}) gives {:?} but the UTF-8 original gives {:?} (document {:?})", e.name(), piece, g, v, declared)),
+            Err(x) => return Err(format!("from_reader of the document in {} (pieces of {}) fails with {} but the UTF-8 original deserializes (document {:?})", e.name(), piece, x, declared)),
+        }
+    }
     Ok(())
 }
 
@@ -518,6 +579,28 @@ fn run(ctx: &mut Ctx) {
             ctx.violation(json!({"state_machine": true}), d);
         }
     }
+    // the deserializer over documents in Cyrillic-capable encodings (names outside ASCII)
+    {
+        let n = if small { 2 } else { ctx.scaled(t.pick(400, 4_000)) / ctx.nshards as u64 + 1 };
+        for e in [encoding_rs::WINDOWS_1251, encoding_rs::KOI8_R, encoding_rs::ISO_8859_5, encoding_rs::IBM866, encoding_rs::UTF_8] {
+            for k in 0..n {
+                let vseed = r.next();
+                let case = json!({"serde_encoded": e.name(), "value_seed": vseed});
+                ctx.journal(|| case.clone());
+                ctx.eval(H::new().str(e.name()).u64(vseed).u64(0x5E).finish(), true);
+                let _ = k;
+                match guarded(|| check_serde_encoded(e, &mut Rng::new(vseed))).unwrap_or_else(Err) {
+                    Ok(()) => *loc.constructs.entry("serde_encoded_docs").or_insert(0) += 1,
+                    Err(d) => {
+                        ctx.violation(case, d);
+                        if ctx.full() {
+                            break;
+                        }
+                    }
+                }
+            }
+        }
+    }
     let per_enc = if small { 2 } else { ctx.scaled(t.pick(5_000, 50_000)) / ctx.nshards as u64 + 1 };
     'outer: for (ei, e) in encs.iter().enumerate() {
         if encoding_rs::Encoding::for_label(e.name().as_bytes()) != Some(e) {
@@ -539,7 +622,8 @@ fn run(ctx: &mut Ctx) {
             }
             let cuts = match k % 3 {
                 0 => None,
-                1 => Some(cuts_for_piece(4096, 1, if doc.bom { 4 } else { 0 })),
+                // the mark as a piece of its own is enough for the sniff to see it
+                1 => Some(cuts_for_piece(4096, 1, if doc.bom { 3 } else { 0 })),
                 _ => {
                     let mut c = Vec::new();
                     let mut p = 4 + r.below(5);
@@ -661,6 +745,7 @@ fn run(ctx: &mut Ctx) {
     for k in ["construct.text", "construct.attr_double", "construct.attr_single", "construct.comment", "construct.cdata", "construct.pi", "construct.name"] {
         ctx.add(k, loc.constructs.get(k).copied().unwrap_or(0));
     }
+    ctx.add("serde_documents_in_legacy_encodings", loc.constructs.get("serde_encoded_docs").copied().unwrap_or(0));
     ctx.add("payload_starting_with_U+FEFF", loc.constructs.get("payload_starting_with_U+FEFF").copied().unwrap_or(0));
     ctx.add("malformed_rejected", loc.malformed.values().sum());
     for (k, v) in &loc.malformed {
@@ -679,6 +764,10 @@ fn replay(case: &Value, _ctx: &mut Ctx) -> Option<String> {
     let mut loc = Local::default();
     if case.get("state_machine").is_some() {
         return check_state_machine(&mut loc).err();
+    }
+    if let Some(label) = case.get("serde_encoded").and_then(|v| v.as_str()) {
+        let e = Encoding::for_label(label.as_bytes())?;
+        return check_serde_encoded(e, &mut Rng::new(case["value_seed"].as_u64().unwrap_or(0))).err();
     }
     let e = Encoding::for_label(case["encoding"].as_str().unwrap_or("utf-8").as_bytes())?;
     let cuts: Option<Vec<usize>> = case["cuts"].as_array().map(|a| a.iter().map(|x| x.as_u64().unwrap_or(0) as usize).collect());
